@@ -209,7 +209,37 @@ def pivot_fails(ctx, piv, rng):
     return None
 
 
+def multi_pivot_fails(pivs, rng):
+    """P directions whose base matrices need different row exchanges: the UTPM wrappers per direction"""
+    P = len(pivs)
+    N = len(pivs[0])
+    mats = [realise(list(pv), rng) for pv in pivs]
+    if any(m is None for m in mats):
+        return None
+    D = 2
+    A = np.zeros((D, P, N, N))
+    for p, m in enumerate(mats):
+        A[0, p] = m
+    A[1] = rand_coeffs(rng, (P, N, N), -1, 1)
+    PIV, L, U = UTPM.lu2(UTPM(A.copy()))
+    W = UTPM.piv2mat(PIV)
+    sg = UTPM.piv2det(PIV)
+    for p in range(P):
+        if list(PIV.data[0, p]) != list(pivs[p]):
+            return None
+        if not np.array_equal(W.data[0, p], utils.piv2mat(np.array(pivs[p]))):
+            return 'UTPM.piv2mat-directions: direction %d of %d gets the permutation of another direction (pivots %s)' % (p, P, [list(v) for v in pivs])
+        if sg.data[0, p] != utils.piv2det(np.array(pivs[p])):
+            return 'UTPM.piv2det-directions: direction %d of %d gets the sign of another direction' % (p, P)
+        if not np.allclose(W.data[0, p] @ L.data[0, p] @ U.data[0, p], A[0, p], atol=1e-10):
+            return 'UTPM.piv2mat-directions: P L U != A in direction %d' % p
+    return None
+
+
 def replay_case(ctx, case):
+    if case.get('op') == 'multipivot':
+        import random
+        return multi_pivot_fails([tuple(p) for p in case['pivs']], random.Random(0))
     if case.get('op') == 'pivot':
         import random
         return pivot_fails(ctx, case['piv'], random.Random(0))
@@ -246,5 +276,14 @@ def run(ctx):
             f = pivot_fails(ctx, piv, ctx.rng)
             if f:
                 ctx.report({'op': 'pivot', 'piv': list(piv)}, 'failure', f)
+    for i in range(60 if ctx.tier == 'quick' else 600):
+        N = ctx.rng.randint(2, 4)
+        allp = list(all_pivots(N))
+        pivs = [ctx.rng.choice(allp) for _ in range(ctx.rng.randint(2, 3))]
+        ctx.evaluations += 1
+        ctx.count('multi-direction-pivots')
+        f = multi_pivot_fails(pivs, ctx.rng)
+        if f:
+            ctx.report({'op': 'multipivot', 'pivs': [list(p) for p in pivs]}, 'failure', f)
     ctx.exhaustive = False
     ctx.dist['pivot_vectors_exhaustive_up_to_N'] = Nmax
